@@ -5,13 +5,13 @@ import json, os, re
 ROOT = os.path.dirname(os.path.dirname(os.path.abspath(__file__)))
 THOROUGH = {
  "C01": "3.04 M cases (~50 min)", "C02": "12 000 scenarios (~28 min)", "C03": "8 000 histories <= 26 ops (~27 min)",
- "C04": "6 000 histories <= 44 ops (~60 min)", "C05": "8 000 scenarios (~21 min)", "C06": "4 000 scenarios, every truncation length",
+ "C04": "6 000 histories <= 44 ops (~60 min)", "C05": "8 000 scenarios (~21 min)", "C06": "4 000 scenarios => 70 500 fault runs, every truncation length (~55 min)",
  "C07": "10 000 request sequences (~34 min)", "C08": "424 000 cases, up to 300 commitments / 2 500 context ids (~95 min)",
  "C09": "x20 + 5 libFuzzer targets x 300 s", "C10": "4 800 messages, every position (~33 min)", "C11": "127 840 judgements (~28 min)",
  "C12": "254 000 evaluations (~29 min)", "C13": "2.3 M requests + libFuzzer 300 s (~28 min)", "C14": "570 000 calls (~23 min)",
- "C15": "5 000 histories <= 20 ops (~34 min)", "C16": "4 400 cases incl. a chain with > 1000 owned outputs (~47 min)",
+ "C15": "5 000 histories <= 20 ops (~34 min)", "C16": "4 400 cases incl. a chain with > 1000 owned outputs (~50 min)",
  "C17": "40 000 judged refreshes (~30 min)", "C18": "2 400 fork scenarios (~25 min)", "C19": "100 k logs => 2.05 M queries (~15 min)",
- "C20": "ex2 exhaustive, preemption bound 2, 9 600 constructed and 12 000 sampled schedules (~38 min)",
+ "C20": "73 300 schedules: ex2 exhaustive, preemption bound 2, 9 600 constructed, 12 000 sampled (~40 min)",
 }
 rows = []
 for i in range(1, 21):
